@@ -77,12 +77,31 @@ def _r04b(rep):
         fail, good = (t.body, t.orelse) if "!=" in test else (t.orelse, t.body)
         stores_fail = [s for b in fail for s in ast.walk(b) if isinstance(s, ast.Assign) and core.src(s.targets[0]).startswith("self._") and "map" in core.src(s.targets[0])]
         stores_good = [s for b in good for s in ast.walk(b) if isinstance(s, ast.Assign) and core.src(s.targets[0]).startswith("self._") and "map" in core.src(s.targets[0])]
-        ok = not stores_fail and len(stores_good) >= 3 and "N" in test
+        ok = not stores_fail and len(stores_good) >= 3
     rep.instance("R04b", CELLS, "Supercell._create_supercell", core.norm(core.src(ifs[0].test), 80) if ifs else "<no determinant test>", ok,
                  "the supercell's atom count is not compared with det(S) before the index maps are stored (or the failing branch stores maps)", line=fn.lineno)
-    n_def = [s for s in ast.walk(fn) if isinstance(s, ast.Assign) and core.src(s.targets[0]) == "N"]
-    rep.instance("R04b", CELLS, "Supercell._create_supercell", core.src(n_def[0]) if n_def else "<N vanished>", bool(n_def) and core.src(n_def[0].value) == "num_satom // num_uatom",
-                 "N is not the ratio of supercell to unit-cell atom counts", line=fn.lineno)
+    # meaning of the test, whatever its form: it holds exactly when len(trimmed cell) == len(unit cell) * det(S)
+    import sympy as sp
+    from engine import symalg
+
+    ok_sem, shown = False, "<no determinant test>"
+    if ifs and isinstance(ifs[0].test, ast.Compare) and len(ifs[0].test.ops) == 1 and isinstance(ifs[0].test.ops[0], (ast.Eq, ast.NotEq)):
+        tr = symalg.OpenPyTranslator(where="Supercell._create_supercell")
+        env = tr.summary(fn)
+        lhs, rhs = tr.expr(ifs[0].test.left, env), tr.expr(ifs[0].test.comparators[0], env)
+        diff = lhs - rhs
+        lens = [x for x in diff.atoms(sp.Function) if x.func.__name__ == "len"]
+        S = [x for x in lens if "_trim_cell" in str(x)]
+        U = [x for x in lens if str(x) == "len(unitcell)"]
+        Dt = [x for x in diff.atoms(sp.Function) if x.func.__name__ == "determinant" and "supercell_matrix" in str(x)]
+        shown = core.norm(core.src(ifs[0].test), 80)
+        if S and U and Dt:
+            u, d = sp.Symbol("u", positive=True, integer=True), sp.Symbol("d", positive=True, integer=True)
+            eq = sp.simplify(diff.subs(S[0], u * d).subs(U[0], u).subs(Dt[0], d))
+            ne = sp.simplify(diff.subs(S[0], u * (d + 1)).subs(U[0], u).subs(Dt[0], d))
+            ok_sem = eq == 0 and ne != 0
+    rep.instance("R04b", CELLS, "Supercell._create_supercell", f"{shown}  <=>  len(trimmed cell) == len(unit cell) * det(S)", ok_sem,
+                 "the rejection test does not compare the atom count of the trimmed cell with len(unitcell) * det(supercell matrix)", line=fn.lineno)
     pf = core.find_def(CELLS, "Primitive._create_primitive_cell")
     # the rejection compares a per-atom species label of the supercell with the same label gathered through the
     # mapping table; the label must be the full symbol (index-decorated symbols such as Cr1/Cr2 share one atomic number)
@@ -105,8 +124,22 @@ def _r04b(rep):
     else:
         rep.instance("R04b", CELLS, "Primitive._create_primitive_cell", shown, verdict, "the species check compares atomic numbers / masses only: atoms with index-decorated symbols (e.g. Cr1, Cr2) that map onto each other are no longer rejected", line=pf.lineno)
     mf = core.find_def(CELLS, "Primitive._map_atomic_indices")
-    asserts = [n for n in ast.walk(mf) if isinstance(n, ast.Assert) and core.src(n.test) == "len(indices) == 1"]
-    rep.instance("R04b", CELLS, "Primitive._map_atomic_indices", "assert len(indices) == 1", bool(asserts), "a supercell atom matching zero or several primitive atoms is no longer rejected", line=mf.lineno)
+    # inside the per-atom loop, a count of matches is required to be exactly one (assert, or if-raise)
+    uniq = []
+    for lp in [n for n in ast.walk(mf) if isinstance(n, ast.For)]:
+        local = {t.id for st in ast.walk(lp) if isinstance(st, ast.Assign) for t in st.targets if isinstance(t, ast.Name)}
+        for n in ast.walk(lp):
+            test = n.test if isinstance(n, (ast.Assert, ast.If)) else None
+            if test is None or (isinstance(n, ast.If) and not any(isinstance(x, ast.Raise) for st in n.body for x in ast.walk(st))):
+                continue
+            for c in [x for x in ast.walk(test) if isinstance(x, ast.Compare) and len(x.ops) == 1]:
+                sides = [c.left, c.comparators[0]]
+                one = [x for x in sides if isinstance(x, ast.Constant) and x.value == 1]
+                cnt = [x for x in sides if not isinstance(x, ast.Constant) and {y.id for y in ast.walk(x) if isinstance(y, ast.Name)} & local and ("len(" in core.src(x) or ".size" in core.src(x) or "count" in core.src(x) or "sum" in core.src(x))]
+                want = ast.Eq if isinstance(n, ast.Assert) else ast.NotEq
+                if one and cnt and isinstance(c.ops[0], want):
+                    uniq.append(n)
+    rep.instance("R04b", CELLS, "Primitive._map_atomic_indices", core.norm(core.src(uniq[0]), 60) if uniq else "<no uniqueness test>", bool(uniq), "a supercell atom matching zero or several primitive atoms is no longer rejected", line=mf.lineno)
     tf = core.find_def(CELLS, "_trim_cell")
     t = core.src(tf)
     rep.instance("R04b", CELLS, "_trim_cell", "trimmed cell reports the mapping table used for the atom-count check", "mapping_table" in t, "mapping table vanished", line=tf.lineno, nontrivial=False)
@@ -114,11 +147,21 @@ def _r04b(rep):
 
 def _r04c(rep):
     fn = core.find_def(CELLS, "Supercell._get_simple_supercell")
-    txt = [core.src(s) for s in ast.walk(fn) if isinstance(s, (ast.Assign, ast.Assert))]
-    ok1 = "P_inv = np.rint(np.linalg.inv(P)).astype(int)" in txt
-    ok2 = "assert determinant(P_inv) == 1" in txt
-    rep.instance("R04c", CELLS, "Supercell._get_simple_supercell", "P_inv = rint(inv(P)) as integers", ok1, "P is no longer inverted to an integer matrix", line=fn.lineno)
-    rep.instance("R04c", CELLS, "Supercell._get_simple_supercell", "assert determinant(P_inv) == 1", ok2, "the unimodularity assertion on the SNF transformation vanished", line=fn.lineno)
+    from engine import symalg
+
+    tr = symalg.OpenPyTranslator(where="Supercell._get_simple_supercell")
+    env = tr.summary(fn)
+    found = None
+    for a in [x for x in ast.walk(fn) if isinstance(x, ast.Assert)] + [x for x in ast.walk(fn) if isinstance(x, ast.If) and any(isinstance(y, ast.Raise) for y in ast.walk(x))]:
+        for c in [x for x in ast.walk(a.test) if isinstance(x, ast.Compare) and len(x.ops) == 1]:
+            sides = [c.left, c.comparators[0]]
+            if any(isinstance(x, ast.Constant) and x.value == 1 for x in sides) and any("determinant" in core.src(x) or "det(" in core.src(x) for x in sides):
+                detside = [x for x in sides if not isinstance(x, ast.Constant)][0]
+                found = (a, str(tr.expr(detside, env)))
+    ok2 = found is not None
+    ok1 = ok2 and "np.rint(np.linalg.inv(P))" in found[1] and ("int" in found[1].split("np.rint")[0] + found[1].split("np.linalg.inv(P))")[-1])
+    rep.instance("R04c", CELLS, "Supercell._get_simple_supercell", "the matrix whose determinant is asserted is rint(inv(P)) cast to integers", bool(ok1), f"the asserted matrix is {found[1] if found else '<none>'}, not the integer-rounded inverse of the SNF transformation P", line=fn.lineno)
+    rep.instance("R04c", CELLS, "Supercell._get_simple_supercell", "determinant of the inverse transformation is required to be 1", ok2, "the unimodularity assertion on the SNF transformation vanished", line=fn.lineno)
 
 
 def selftest():
@@ -133,5 +176,10 @@ def selftest():
     b("species check on atomic numbers only", CELLS, "        if supercell.symbols != mapped_symbols:", "        if (supercell.numbers != supercell.numbers[mapping_table]).any():", "R04b", "_create_primitive_cell")
     b("species check dropped", CELLS, "        if supercell.symbols != mapped_symbols:", "        if False:", "R04b", "_create_primitive_cell")
     n("species check written with any()", CELLS, "        if supercell.symbols != mapped_symbols:", "        if any(a != b for a, b in zip(supercell.symbols, mapped_symbols)):")
+    n("atom-count test written multiplicatively", CELLS, "        if N != determinant(self._supercell_matrix):", "        if num_satom != num_uatom * determinant(self._supercell_matrix):")
+    b("atom-count ratio inverted", CELLS, "        N = num_satom // num_uatom", "        N = num_uatom // num_satom", "R04b", "det(S)")
+    n("uniqueness as if-raise", CELLS, "            assert len(indices) == 1", "            if len(indices) != 1:\n                raise RuntimeError('mapping failed')")
+    b("uniqueness test dropped", CELLS, "            assert len(indices) == 1\n", "", "R04b", "_map_atomic_indices")
+    b("unimodularity assertion dropped", CELLS, "            assert determinant(P_inv) == 1\n", "", "R04c", "determinant")
     n("dot written as matmul", CELLS, "            cart_diffs = np.dot(frac_diffs, self.cell)", "            cart_diffs = frac_diffs @ self.cell")
     return V
